@@ -26,12 +26,14 @@ def histories(draw):
     nstreams = draw(st.integers(1, 8))
     threshold = draw(st.sampled_from([1, 1, 4, 16, 64, 256]))
     sat = draw(st.sampled_from([False, False, True]))
+    uniform = draw(st.sampled_from([None, None, 16, 100, 1000]))
     streams = []
     for s in range(nstreams):
-        n = draw(st.integers(1, 8))
+        n = draw(st.integers(1, 8 if uniform is None else 14))
         script = []
         for _ in range(n):
-            size = draw(st.sampled_from([1, 2, 5, 16, 64, 100, 256, 1000]))
+            size = uniform or draw(
+                st.sampled_from([1, 2, 5, 16, 64, 100, 256, 1000]))
             if sat:
                 think = 0.0
             else:
@@ -220,10 +222,15 @@ def run_history(case):
         # reads currently waiting: refused (they sleep at some point) and
         # not yet granted - including one that was refused but has not
         # reached its sleep call yet
+        # (the refusal itself happened somewhere between the start of this
+        # read and the sleep call, so every throttled read overlapping that
+        # interval counts - a superset, which keeps the check sound)
+        a_self = max([a for (a, b, i, am, ns) in spans
+                      if i == s and a <= stp <= b] or [stp])
         w = {}
         for (a, b, i, am, ns) in spans:
-            if i != s and ns >= 1 and a <= stp <= b:
-                w[i] = am
+            if i != s and ns >= 1 and a <= stp and b >= a_self:
+                w[(i, a)] = am
         bound = (sum(w.values()) + amt) / max_bw
         if d > bound * (1 + TOL) + TOL:
             return (('des:sleep-too-long',
